@@ -605,6 +605,11 @@ def sec_wrappers(ck):
         with ck.section(f"wrap.clip_action.{name}"):
             w = W.ClipAction(env)
             action_image(ck, f"ClipAction@{name}", w, mode="fp32")
+            if name == "pendulum":
+                # `sampled actions are members of the declared action space` for a stack whose declared action space is unbounded (ClipAction advertises
+                # Box(-inf, inf)): the sample-membership obligation of C14 on that space (reals extended with the IEEE special values: 0 * inf is NaN)
+                from props import C14
+                C14.check_sample(ck, w.action_space, patterns=[("unbounded",)])
     with ck.section("wrap.rescale.cartpole"):
         # unbounded components keep infinite targets (the meaningful configuration for a Box with infinite bounds)
         env = CartPole(x_threshold=2.0, theta_threshold_radians=0.25)
